@@ -1,11 +1,12 @@
 #!/usr/bin/env python3
 """Evaluate a behaviour-preserving change written by a sub-agent: no check may raise an alarm on it.
-usage: neutral_eval.py <Cxx> [extra-check-ids...]   (reads /tmp/seeds/<Cxx>-out3/neutral.diff|json, or /verif/seeded/<Cxx>-r3-neutral/)
-Stores it under /verif/seeded/<Cxx>-r3-neutral/ with the results."""
+usage: ROUND=<n> neutral_eval.py <Cxx> [extra-check-ids...]   (reads /tmp/seeds/<Cxx>-out<n>/neutral.diff|json, or /verif/seeded/<Cxx>-r<n>-neutral/)
+Stores it under /verif/seeded/<Cxx>-r<n>-neutral/ with the results."""
 import json, os, shutil, subprocess, sys, tempfile
 cid = sys.argv[1]; extra = sys.argv[2:]
-d = f"/verif/seeded/{cid}-r3-neutral"
-src = f"/tmp/seeds/{cid}-out3"
+rnd = os.environ.get("ROUND", "3")
+d = f"/verif/seeded/{cid}-r{rnd}-neutral"
+src = f"/tmp/seeds/{cid}-out{rnd}"
 if os.path.exists(src + "/neutral.diff"):
     os.makedirs(d, exist_ok=True)
     shutil.copy(src + "/neutral.diff", d + "/patch.diff")
@@ -29,7 +30,7 @@ try:
         det = [l.strip() for l in q.stdout.splitlines() if l.strip().startswith("clause=")][:1]
         res[c] = {"exit": q.returncode, "first": (first[0][:200] if first else ""), "clause": (det[0][:300] if det else ""),
                   "summary": q.stdout.strip().splitlines()[-1][:160] if q.stdout.strip() else ""}
-    m = {"property": cid, "round": 3, "kind": "behaviour-preserving change (no check may report it)", "title": meta.get("title"), "why_neutral": meta.get("why_neutral"),
+    m = {"property": cid, "round": int(rnd), "kind": "behaviour-preserving change (no check may report it)", "title": meta.get("title"), "why_neutral": meta.get("why_neutral"),
          "files": meta.get("files"), "source": "independent sub-agent given only the property text and a scratch worktree",
          "suite_passes_with_patch": suite_ok, "checks": res, "alarms": sorted(c for c, v in res.items() if v["exit"] != 0 or v["first"])}
     json.dump(m, open(d + "/meta.json", "w"), indent=1)
